@@ -104,7 +104,7 @@ theorem ParseHeapTuple_expected_fields_are_read :
 /-- the hypotheses are satisfiable: an empty page of layout version 4 and a one-column tuple -/
 example : (⟨zeros 12, 8192, 4, 0, [], zeros 8168, [], []⟩ : Page).WF ∧
     pageLayout.span "pd_upper".toList = some (14, 16) :=
-  ⟨by simp [Page.WF, Page.upper, Page.lower], by decide⟩
+  ⟨by simp [Page.WF, Page.upper, Page.lower, Page.normalSlots], by decide⟩
 
 example : (⟨2, 0, 0, zeros 6, 1, 0x0900, [0], [7]⟩ : Tuple).WF ∧ tupleLayout.span "t_infomask".toList = some (20, 22) := by
   decide
